@@ -85,8 +85,6 @@ def replay_code(conc):
 
 
 def region(why, st_kind, key=""):
-    if why and why[0] == "path without a hop" and st_kind == "create":
-        return "C06-one-node-paths-for-create-table"
     if why and why[0] == "a resolved source column's table is not read by the script" and "lateral_view" in key:
         return "C06-lateral-view-alias-owns-columns-but-is-no-table"
     return None
